@@ -169,6 +169,15 @@ pub fn input_alphabet(tys: &[Type], op: Option<&Operation>, sm: &mut SplitMix) -
             out.push(("crafted:one-dummy".into(), vec![v]));
             let v = leaf_from(&tys[0], &|i| if i % d == d - 1 { u128::MAX } else { (d - 2 - i % d) as u128 });
             out.push(("crafted:dummy-last".into(), vec![v]));
+            // several tables (leading dimensions) with a varying number of dummies: k dummy cells in front, then 0..d-k-1
+            let row_with = |col: usize, k: usize| if col < k { u128::MAX } else { (col - k) as u128 };
+            for (name, even, odd) in [("two-dummies-then-none", 2usize, 0usize), ("two-dummies-then-one", 2, 1), ("all-dummies-then-none", d, 0), ("none-then-two", 0, 2)] {
+                let v = leaf_from(&tys[0], &|i| {
+                    let k = if (i / d) % 2 == 0 { even.min(d) } else { odd.min(d) };
+                    row_with(i % d, k)
+                });
+                out.push((format!("crafted:{}", name), vec![v]));
+            }
         }
         Some(Operation::CuckooHash) if tys.len() == 2 => {
             out.extend(cuckoo_inputs(&tys[0], &tys[1], sm));
